@@ -321,11 +321,8 @@ def to_numpy(array, allow_missing=True):
 
     elif isinstance(array, ak.layout.RegularArray):
         out = to_numpy(array.content, allow_missing=allow_missing)
-        head, tail = out.shape[0], out.shape[1:]
-        if array.size == 0:
-            shape = (0, 0) + tail
-        else:
-            shape = (head // array.size, array.size) + tail
+        tail = out.shape[1:]
+        shape = (len(array), array.size) + tail
         return out[: shape[0] * array.size].reshape(shape)
 
     elif isinstance(array, ak._util.listtypes):
@@ -510,8 +507,8 @@ def to_cupy(array):
 
     elif isinstance(array, ak.layout.RegularArray):
         out = to_cupy(array.content)
-        head, tail = out.shape[0], out.shape[1:]
-        shape = (head // array.size, array.size) + tail
+        tail = out.shape[1:]
+        shape = (len(array), array.size) + tail
         return out[: shape[0] * array.size].reshape(shape)
 
     elif isinstance(array, ak._util.listtypes):
@@ -684,8 +681,8 @@ def to_jax(array):
 
     elif isinstance(array, ak.layout.RegularArray):
         out = to_jax(array.content)
-        head, tail = out.shape[0], out.shape[1:]
-        shape = (head // array.size, array.size) + tail
+        tail = out.shape[1:]
+        shape = (len(array), array.size) + tail
         return out[: shape[0] * array.size].reshape(shape)
 
     elif isinstance(array, ak._util.listtypes):
